@@ -131,9 +131,9 @@ impl DcpsDomainParticipant {
             .filter_map(|data_reader| {
                 if let DurationKind::Finite(deadline) = data_reader.qos.deadline.period {
                     data_reader
-                        .instance_ownership
+                        .instances
                         .iter()
-                        .map(|instance| deadline - (now - instance.last_received_time))
+                        .map(|instance| deadline - (now - instance.last_received_time_stamp()))
                         .min()
                 } else {
                     None
